@@ -72,7 +72,9 @@ class Ctx:
         tag = tag or (module + "-" + os.path.splitext(os.path.basename(cfg))[0])
         meta = os.path.join(self.work, "meta-" + tag + "-" + str(len(self.tlc_runs)))
         gc = "-XX:+UseSerialGC" if workers == 1 else "-XX:+UseParallelGC"
-        cmd = ["java", gc, "-Xmx" + heap, "-cp", JAR + ":" + DEPS, "tlc2.TLC",
+        jtmp = os.path.join(self.work, "jtmp")           # TLC's scratch directories go with the work directory (removed at the end)
+        os.makedirs(jtmp, exist_ok=True)
+        cmd = ["java", gc, "-Xmx" + heap, "-Djava.io.tmpdir=" + jtmp, "-cp", JAR + ":" + DEPS, "tlc2.TLC",
                "-workers", str(workers), "-metadir", meta, "-noGenerateSpecTE",
                "-config", cfg]
         if coverage:
